@@ -182,9 +182,9 @@ def judge(ctx, ss, ts, tb, fb):
         ctx.violate_exc("raises", f"raises:{type(e).__name__}", e, spec=spec)
 
 
-def _cluster(rng, n, m, arrangement):
+def _cluster(rng, n, m, arrangement, base=None):
     """Boxes for n sources and m targets arranged to produce ties / chains / disjointness."""
-    base = geoms.random_box(rng, rng.choice(["realistic", "dyadic"]))
+    base = base or geoms.random_box(rng, rng.choice(["realistic", "dyadic"]))
     t0, t1, f0, f1 = base
     w, h = t1 - t0, f1 - f0
     out_s, out_t = [], []
@@ -251,15 +251,29 @@ def run(ctx):
         for n in range(0, 7):
             for m in range(0, 7):
                 arr = arrangements[(rep + n + m) % len(arrangements)] if rep < len(arrangements) else rng.choice(arrangements)
-                mix = rng.choice(["boxes", "areal", "all", "intervals"])
+                # homogeneous calls (onset detection: time stamps only; segment detection: intervals only; one type
+                # throughout) next to mixed ones
+                mix = rng.choice(["boxes", "areal", "all", "intervals", "time_only", "stamps", "one_type", "low_dim"])
                 pool = {"boxes": ["BoundingBox"], "areal": ["BoundingBox", "Polygon", "MultiPolygon", "TimeInterval"],
-                        "all": geoms.TYPES, "intervals": ["TimeInterval", "TimeStamp", "BoundingBox"]}[mix]
-                bs, bt = _cluster(rng, n, m, arr)
+                        "all": geoms.TYPES, "intervals": ["TimeInterval", "TimeStamp", "BoundingBox"], "time_only": ["TimeInterval", "TimeStamp"],
+                        "stamps": ["TimeStamp"], "one_type": [rng.choice(geoms.TYPES)], "low_dim": list(geoms.ZERO_ONE_D)}[mix]
+                tb, fb = rng.choice([(0.01, 100.0), (0.001, 10.0), (0.5, 2000.0), (0.01, 100.0), (0.0, 100.0), (0.01, 0.0), (0.0, 0.0)])
+                base = None
+                where = "anywhere"
+                if rng.random() < 0.3:
+                    # the whole configuration within a few buffers of a domain edge: time 0, frequency 0, MAX_FREQUENCY
+                    where = "domain_edge"
+                    tb, fb = rng.choice([(0.01, 100.0), (0.5, 2000.0), (0.001, 10.0)])
+                    t0 = rng.choice([0.0, rng.uniform(0, tb)])
+                    wdt = tb * rng.choice([0.5, 2.0, 10.0])
+                    f0, f1 = rng.choice([(0.0, fb * rng.choice([0.5, 3.0])), (geoms.MAXF - fb * rng.choice([0.5, 3.0]), float(geoms.MAXF)), (1000.0, 1000.0 + 5 * fb)])
+                    base = (t0, t0 + wdt, f0, f1)
+                bs, bt = _cluster(rng, n, m, arr, base)
                 ss = [geoms.geom_in_box(rng, rng.choice(pool), *b) for b in bs]
                 ts = [geoms.geom_in_box(rng, rng.choice(pool), *b) for b in bt]
                 if arr == "duplicates" and ss and ts:
                     ts = [ss[0]] * len(ts) if rng.random() < 0.5 else ts
-                tb, fb = rng.choice([(0.01, 100.0), (0.001, 10.0), (0.5, 2000.0), (0.01, 100.0), (0.0, 100.0), (0.01, 0.0), (0.0, 0.0)])
+                mix = mix + ":" + where
                 ctx.case((n, m, arr, mix), {"source": ss, "target": ts, "tb": tb, "fb": fb}, nontrivial=bool(n and m))
                 judge(ctx, ss, ts, tb, fb)
     # a few larger inputs (coverage / pairing rules judged, optimality not)
